@@ -44,6 +44,13 @@ func (g *Gen) site() L.Expr {
 
 func (g *Gen) siteStmt() L.Stmt { return callStmt(g.site().(*L.CallExpr)) }
 
+// inlineSite is a fault site whose fault is raised by a VM instruction of the enclosing function itself (not inside
+// fault()): the failing frame is the one whose locals the surrounding template has captured.
+func (g *Gen) inlineSite() L.Stmt {
+	g.Sites++
+	return ifs(bin("==", name("ARMED"), num(float64(g.Sites))), blk(local1("nz", &L.NilExpr{}), local1("bad", bin("+", name("nz"), num(1)))), nil)
+}
+
 // describe(e): what the caller may observe of a caught error value without looking inside unspecified text
 func describeErr(e string) []L.Expr {
 	return []L.Expr{call(name("type"), name(e)), bin("and", bin("==", call(name("type"), name(e)), str("table")), field(name(e), "site")), name(e)}
@@ -54,7 +61,7 @@ func (g *Gen) faultyBody(ups []string, depth int) []L.Stmt {
 	var ss []L.Stmt
 	n := 2 + g.n(4, "fbn")
 	for i := 0; i < n; i++ {
-		switch g.n(13, "fbkind") {
+		switch g.n(14, "fbkind") {
 		case 12:
 			// the failing function is reached through a table field whose name is unusual text (the call site's name ends
 			// up in tracebacks and messages)
@@ -106,13 +113,21 @@ func (g *Gen) faultyBody(ups []string, depth int) []L.Stmt {
 			// inside a function called through a host function (Go re-entry)
 			g.class("err:through_host_call")
 			ss = append(ss, emit(call(name("hostcall"), fn([]string{"p"}, false, blk(g.siteStmt(), ret(name("p"), str("from callback")))), num(7))))
+		case 11:
+			// inside a coroutine driven by the host through the Go API (NewThread + Resume until it is dead)
+			g.class("err:in_host_resumed_coroutine")
+			hb := fn([]string{"p"}, false, blk(emit(str("host co start"), name("p")), g.siteStmt(), callStmt(call(field(name("coroutine"), "yield"), num(1))), g.siteStmt(), ret(str("host co end"), name("p"))))
+			ss = append(ss, emit(str("hostresume"), call(name("hostresume"), hb, num(5))))
 		default:
 			// inside a coroutine body: the fault kills the coroutine and reaches the resumer as (false, value)
 			g.class("err:in_coroutine")
-			body := fn(nil, false, blk(emit(str("co start")), g.siteStmt(), callStmt(call(field(name("coroutine"), "yield"), num(1))), g.siteStmt(), ret(str("co end"))))
-			ss = append(ss, local1("fco", call(field(name("coroutine"), "create"), body)),
+			// a closure over a local of the coroutine body escapes and is used after the coroutine has died or ended
+			body := fn(nil, false, blk(emit(str("co start")), local1("cv", num(7)), assign1(field(name("cesc"), "get"), fn(nil, false, blk(ret(name("cv"))))), g.siteStmt(), g.inlineSite(), assign1(name("cv"), num(8)),
+				callStmt(call(field(name("coroutine"), "yield"), num(1))), g.inlineSite(), g.siteStmt(), ret(str("co end"))))
+			ss = append(ss, local1("cesc", tbl()), local1("fco", call(field(name("coroutine"), "create"), body)),
 				local([]string{"r1", "v1"}, call(field(name("coroutine"), "resume"), name("fco"))), emit(str("resume1"), name("r1"), call(name("type"), name("v1")), call(field(name("coroutine"), "status"), name("fco"))),
-				local([]string{"r2", "v2"}, call(field(name("coroutine"), "resume"), name("fco"))), emit(str("resume2"), name("r2"), call(name("type"), name("v2")), call(field(name("coroutine"), "status"), name("fco"))))
+				local([]string{"r2", "v2"}, call(field(name("coroutine"), "resume"), name("fco"))), emit(str("resume2"), name("r2"), call(name("type"), name("v2")), call(field(name("coroutine"), "status"), name("fco"))),
+				emit(str("escaped from the coroutine"), call(field(name("cesc"), "get"))))
 		}
 	}
 	return ss
